@@ -1,5 +1,577 @@
+//! Workload "pages" (C11): the crate-private page layer driven directly through the
+//! e57_verif hook, beside a logical-stream model. Bounded-exhaustive histories over an
+//! operation alphabet, then random histories with patch-back patterns; read-side sequences.
+
+use crate::crc::{log_to_phys, phys_to_log, FastCrc, PAGE, PAYLOAD};
+use crate::dev::Dev;
+use crate::json::J;
+use crate::rng::Rng;
+use crate::scene::guarded;
 use crate::{Args, Reporter};
-pub fn run(_a: &Args, _rep: &mut Reporter) {
-    eprintln!("workload not built yet");
-    std::process::exit(2);
+use e57::verif::{PagedReader, PagedWriter};
+use std::io::{Read, Write};
+
+#[derive(Clone, Copy, Debug, PartialEq)]
+pub enum Op {
+    W(usize),   // write_all of n bytes
+    Raw(usize), // one Write::write call (short-count semantics)
+    S(Pos),     // physical_seek
+    F,          // flush
+    A,          // align
+    P,          // physical_position
+    Z,          // physical_size
+}
+
+#[derive(Clone, Copy, Debug, PartialEq)]
+pub enum Pos {
+    Abs(u64),
+    End,         // current physical size (after flush)
+    EndPlus(u64),
+    EndMinus(u64),
+    Earlier,     // physical position remembered before the first write of the history
+    InChecksum,  // last page start + 1020..1023
+}
+
+pub const ALPHABET: &[Op] = &[
+    Op::W(0),
+    Op::W(1),
+    Op::W(3),
+    Op::W(4),
+    Op::W(5),
+    Op::W(1016),
+    Op::W(1019),
+    Op::W(1020),
+    Op::W(1021),
+    Op::W(2040),
+    Op::W(2041),
+    Op::W(3067),
+    Op::Raw(1500),
+    Op::S(Pos::Abs(0)),
+    Op::S(Pos::Abs(48)),
+    Op::S(Pos::Abs(1019)),
+    Op::S(Pos::Abs(1020)),
+    Op::S(Pos::Abs(1024)),
+    Op::S(Pos::Abs(1025)),
+    Op::S(Pos::End),
+    Op::S(Pos::EndPlus(1)),
+    Op::S(Pos::EndMinus(1024)),
+    Op::S(Pos::EndMinus(5)),
+    Op::S(Pos::Earlier),
+    Op::S(Pos::InChecksum),
+    Op::F,
+    Op::A,
+    Op::P,
+    Op::Z,
+];
+
+/// Logical-stream model of the writer side.
+pub struct Model {
+    pub log: Vec<u8>, // logical bytes, always zero padded to whole pages that were touched
+    pub cur: usize,
+    pub stamp: u8,
+}
+
+impl Model {
+    pub fn new() -> Model {
+        Model { log: Vec::new(), cur: 0, stamp: 1 }
+    }
+    pub fn pages(&self) -> usize {
+        self.log.len() / PAYLOAD
+    }
+    pub fn phys_size(&self) -> u64 {
+        (self.pages() * PAGE) as u64
+    }
+    fn touch(&mut self, upto: usize) {
+        // make sure pages covering [0, upto) exist (zero filled)
+        let need_pages = (upto + PAYLOAD - 1) / PAYLOAD;
+        if need_pages * PAYLOAD > self.log.len() {
+            self.log.resize(need_pages * PAYLOAD, 0);
+        }
+    }
+    pub fn write(&mut self, data: &[u8]) {
+        if data.is_empty() {
+            return;
+        }
+        self.touch(self.cur + data.len());
+        self.log[self.cur..self.cur + data.len()].copy_from_slice(data);
+        self.cur += data.len();
+    }
+    pub fn pattern(&mut self, n: usize) -> Vec<u8> {
+        // position stamped, never zero: a misplaced or missing byte is visible
+        let s = self.stamp;
+        self.stamp = self.stamp.wrapping_mul(7).wrapping_add(13) | 1;
+        (0..n).map(|i| ((i as u8).wrapping_mul(3).wrapping_add(s)) | 0x80).collect()
+    }
+}
+
+fn abs_state(m: &Model) -> u64 {
+    let inpage = m.cur % PAYLOAD;
+    let c = match inpage {
+        0 => 0,
+        1..=3 => 1,
+        4..=1015 => 2,
+        1016..=1018 => 3,
+        _ => 4,
+    };
+    let page_exists = (m.cur / PAYLOAD) < m.pages();
+    let at_end = m.cur >= m.log.len();
+    let pages = m.pages().min(4) as u64;
+    c + 5 * (page_exists as u64) + 10 * (at_end as u64) + 20 * pages + 100 * ((m.cur % 4) as u64)
+}
+
+pub struct HistoryResult {
+    pub viol: Option<(String, String)>, // (signature tail, detail)
+    pub ops_run: u64,
+    pub flush_points: u64,
+}
+
+fn check_device(dev: &Dev, m: &Model, fc: &FastCrc, after: &str) -> Option<(String, String)> {
+    let img = dev.bytes();
+    if img.len() % PAGE != 0 {
+        return Some((format!("flush-point/size-not-whole-pages/after={}", after), format!("device holds {} bytes", img.len())));
+    }
+    if img.len() as u64 != m.phys_size() {
+        return Some((format!("flush-point/size/after={}", after), format!("device holds {} bytes ({} pages), model expects {} pages", img.len(), img.len() / PAGE, m.pages())));
+    }
+    if let Some(bad) = fc.bad_pages(&img) {
+        if !bad.is_empty() {
+            return Some((format!("flush-point/checksum/after={}", after), format!("pages with wrong checksum: {:?}", bad)));
+        }
+    }
+    let log = crate::crc::logical(&img);
+    if log != m.log {
+        let first = log.iter().zip(m.log.iter()).position(|(a, b)| a != b).unwrap_or(0);
+        return Some((format!("flush-point/payload/after={}", after), format!("payload differs from the logical stream first at logical byte {} (page {}, in-page {}): device {:#x} model {:#x}", first, first / PAYLOAD, first % PAYLOAD, log[first], m.log[first])));
+    }
+    None
+}
+
+fn op_name(op: &Op) -> String {
+    match op {
+        Op::S(Pos::InChecksum) | Op::S(Pos::Abs(1020)) => "rejected-seek-checksum".into(),
+        Op::S(Pos::EndPlus(_)) => "rejected-seek-past-end".into(),
+        Op::S(_) => "seek".into(),
+        Op::W(_) => "write".into(),
+        Op::Raw(_) => "raw-write".into(),
+        Op::F => "flush".into(),
+        Op::A => "align".into(),
+        Op::P => "position".into(),
+        Op::Z => "size".into(),
+    }
+}
+
+/// Execute one history against the real PagedWriter and the model.
+pub fn run_history(ops: &[Op], fc: &FastCrc, cover: &mut crate::Cover) -> HistoryResult {
+    let dev = Dev::empty();
+    let mut m = Model::new();
+    let mut res = HistoryResult { viol: None, ops_run: 0, flush_points: 0 };
+    let mut w = match PagedWriter::new(dev.clone()) {
+        Ok(w) => w,
+        Err(e) => {
+            res.viol = Some(("new/error".into(), format!("{}", e)));
+            return res;
+        }
+    };
+    let mut earlier: Option<u64> = None;
+    let mut last_rejected = false;
+    let mut prev_state = abs_state(&m);
+    for (i, op) in ops.iter().enumerate() {
+        res.ops_run += 1;
+        let name = op_name(op);
+        let after = if last_rejected { format!("{}-following-rejected-seek", name) } else { name.clone() };
+        let r: std::result::Result<Option<(String, String)>, String> = guarded(|| -> Option<(String, String)> {
+            match op {
+                Op::W(n) => {
+                    if earlier.is_none() && *n > 0 {
+                        earlier = Some(log_to_phys(m.cur as u64));
+                    }
+                    let data = m.pattern(*n);
+                    match w.write_all(&data) {
+                        Ok(()) => m.write(&data),
+                        Err(e) => return Some((format!("write_all/error/{}", after), format!("op {} {:?}: {}", i, op, e))),
+                    }
+                    None
+                }
+                Op::Raw(n) => {
+                    let data = m.pattern(*n);
+                    let expect = (*n).min(PAYLOAD - m.cur % PAYLOAD);
+                    match w.write(&data) {
+                        Ok(k) => {
+                            if k == 0 && *n > 0 || k > *n {
+                                return Some((format!("write/count/{}", after), format!("write({}) returned {}", n, k)));
+                            }
+                            // any positive short count is legal for Write::write; the bytes accepted must land
+                            let _ = expect;
+                            m.write(&data[..k]);
+                            None
+                        }
+                        Err(e) => Some((format!("write/error/{}", after), format!("{}", e))),
+                    }
+                }
+                Op::S(pos) => {
+                    // a seek is a flush point: the device must be consistent afterwards, accepted or not
+                    let size = m.phys_size();
+                    let p = match pos {
+                        Pos::Abs(p) => *p,
+                        Pos::End => size,
+                        Pos::EndPlus(k) => size + k,
+                        Pos::EndMinus(k) => size.saturating_sub(*k),
+                        Pos::Earlier => earlier.unwrap_or(0),
+                        Pos::InChecksum => (size.saturating_sub(PAGE as u64)) / PAGE as u64 * PAGE as u64 + 1020 + (i as u64 % 4),
+                    };
+                    let legal = p <= size && (p % PAGE as u64) < PAYLOAD as u64;
+                    let r = w.physical_seek(p);
+                    match (r, legal) {
+                        (Ok(()), true) => {
+                            m.cur = phys_to_log(p) as usize;
+                            last_rejected = false;
+                        }
+                        (Err(_), false) => {
+                            // rejected: the model says nothing changes. A rejected seek is not a flush point
+                            // (the layer may refuse it before touching the device), so the device is not judged here;
+                            // whatever it did shows at the next flush point.
+                            last_rejected = true;
+                            return None;
+                        }
+                        (Ok(()), false) => return Some((format!("seek/accepted-illegal/{}", after), format!("physical_seek({}) accepted; size {}", p, size))),
+                        (Err(e), true) => return Some((format!("seek/rejected-legal/{}", after), format!("physical_seek({}) rejected ({}); size {}", p, e, size))),
+                    }
+                    res.flush_points += 1;
+                    check_device(&dev, &m, fc, &after)
+                }
+                Op::F => {
+                    if let Err(e) = w.flush() {
+                        return Some((format!("flush/error/{}", after), format!("{}", e)));
+                    }
+                    res.flush_points += 1;
+                    check_device(&dev, &m, fc, &after)
+                }
+                Op::A => {
+                    if let Err(e) = w.align() {
+                        return Some((format!("align/error/{}", after), format!("{}", e)));
+                    }
+                    let pad = (4 - m.cur % 4) % 4;
+                    let z = vec![0u8; pad];
+                    m.write(&z);
+                    None
+                }
+                Op::P => match w.physical_position() {
+                    Ok(p) => {
+                        let e = log_to_phys(m.cur as u64);
+                        if p != e {
+                            Some((format!("position/{}", after), format!("physical_position() = {} but the logical cursor {} maps to {}", p, m.cur, e)))
+                        } else {
+                            None
+                        }
+                    }
+                    Err(e) => Some((format!("position/error/{}", after), format!("{}", e))),
+                },
+                Op::Z => match w.physical_size() {
+                    Ok(s) => {
+                        res.flush_points += 1;
+                        if s != m.phys_size() {
+                            return Some((format!("size/{}", after), format!("physical_size() = {} model {} pages", s, m.pages())));
+                        }
+                        check_device(&dev, &m, fc, &after)
+                    }
+                    Err(e) => Some((format!("size/error/{}", after), format!("{}", e))),
+                },
+            }
+        });
+        match r {
+            Err(p) => {
+                res.viol = Some((format!("panic/{}", crate::scene::panic_sig(&p)), format!("op {} {:?}: {}", i, op, p)));
+                return res;
+            }
+            Ok(Some(v)) => {
+                res.viol = Some((v.0, format!("op {} of {:?}: {}", i, ops, v.1)));
+                return res;
+            }
+            Ok(None) => {}
+        }
+        if !matches!(op, Op::S(_)) {
+            // the "following a rejected seek" qualifier applies to the next flush point only
+            if matches!(op, Op::F | Op::Z) {
+                last_rejected = false;
+            }
+        }
+        let st = abs_state(&m);
+        cover.hit_num("abs_state", st);
+        let opk: u64 = match op {
+            Op::W(_) => 0,
+            Op::Raw(_) => 1,
+            Op::S(_) => 2,
+            Op::F => 3,
+            Op::A => 4,
+            Op::P => 5,
+            Op::Z => 6,
+        };
+        cover.hit_num("transition", (prev_state * 10 + opk) * 1000 + st);
+        prev_state = st;
+    }
+    // drop = last flush point
+    let after = if last_rejected { "drop-following-rejected-seek".to_string() } else { "drop".to_string() };
+    match guarded(|| drop(w)) {
+        Err(p) => {
+            res.viol = Some((format!("panic/drop/{}", crate::scene::panic_sig(&p)), p));
+            return res;
+        }
+        Ok(()) => {}
+    }
+    res.flush_points += 1;
+    if let Some(v) = check_device(&dev, &m, fc, &after) {
+        res.viol = Some((v.0, format!("after {:?}: {}", ops, v.1)));
+        return res;
+    }
+    res
+}
+
+// ------------------------------------------------------------------ reader side
+
+#[derive(Clone, Copy, Debug)]
+pub enum ROp {
+    Seek(u64),
+    Read(usize),
+    Exact(usize),
+    Align,
+}
+
+/// Run a read-side sequence over an image (whose logical content is `log`); `bad_page`: a page
+/// whose checksum is wrong (reads touching it must fail, all others must be unaffected).
+pub fn run_reads(img: &[u8], log: &[u8], bad_page: Option<usize>, ops: &[ROp], cover: &mut crate::Cover) -> Option<(String, String)> {
+    let dev = Dev::new(img.to_vec());
+    let mut rd = match PagedReader::new(dev, PAGE as u64) {
+        Ok(r) => r,
+        Err(e) => return Some(("reader/new".into(), format!("{}", e))),
+    };
+    let total = log.len();
+    let mut cur: usize = 0;
+    for (i, op) in ops.iter().enumerate() {
+        let r = guarded(|| -> Option<(String, String)> {
+            match op {
+                ROp::Seek(p) => {
+                    let legal = (*p as usize) < img.len();
+                    match (rd.seek_physical(*p), legal) {
+                        (Ok(l), true) => {
+                            let e = phys_to_log(*p);
+                            if l != e {
+                                return Some(("reader/seek-result".into(), format!("seek_physical({}) returned {} expected {}", p, l, e)));
+                            }
+                            cur = e as usize;
+                            None
+                        }
+                        (Err(_), false) => None,
+                        (Ok(_), false) => Some(("reader/seek-accepted-past-end".into(), format!("seek_physical({}) accepted, size {}", p, img.len()))),
+                        (Err(e), true) => Some(("reader/seek-rejected".into(), format!("seek_physical({}) rejected: {}", p, e))),
+                    }
+                }
+                ROp::Read(n) => {
+                    let mut buf = vec![0xEEu8; *n];
+                    let page = cur / PAYLOAD;
+                    let expect_err = cur < total && *n > 0 && bad_page == Some(page);
+                    match rd.read(&mut buf) {
+                        Ok(k) => {
+                            if expect_err {
+                                return Some(("reader/read-from-bad-page".into(), format!("read({}) at logical {} (page {}) returned {} bytes although the page checksum is wrong", n, cur, page, k)));
+                            }
+                            if cur >= total || *n == 0 {
+                                if k != 0 {
+                                    return Some(("reader/read-past-end".into(), format!("read at end returned {}", k)));
+                                }
+                                return None;
+                            }
+                            if k == 0 || k > *n || cur + k > total {
+                                return Some(("reader/read-count".into(), format!("read({}) at {} returned {}", n, cur, k)));
+                            }
+                            if buf[..k] != log[cur..cur + k] {
+                                return Some(("reader/read-content".into(), format!("read({}) at logical {} returned other bytes than the logical stream", n, cur)));
+                            }
+                            cover.hit(if (cur + k) % PAYLOAD == 0 { "read:ends-at-page-end" } else { "read:inside-page" });
+                            cur += k;
+                            None
+                        }
+                        Err(e) => {
+                            if expect_err || (bad_page == Some(page) && *n == 0) {
+                                cover.hit("read:bad-page-error");
+                                None
+                            } else {
+                                Some(("reader/read-error".into(), format!("read({}) at logical {} failed: {}", n, cur, e)))
+                            }
+                        }
+                    }
+                }
+                ROp::Exact(n) => {
+                    let mut buf = vec![0xEEu8; *n];
+                    let fits = cur + *n <= total;
+                    let touches_bad = match bad_page {
+                        Some(b) if *n > 0 => {
+                            let first = cur / PAYLOAD;
+                            let last = (cur + *n - 1) / PAYLOAD;
+                            first <= b && b <= last
+                        }
+                        _ => false,
+                    };
+                    match rd.read_exact(&mut buf) {
+                        Ok(()) => {
+                            if !fits {
+                                return Some(("reader/read_exact-past-end".into(), format!("read_exact({}) at {} succeeded beyond the end {}", n, cur, total)));
+                            }
+                            if touches_bad {
+                                return Some(("reader/read-from-bad-page".into(), format!("read_exact({}) at logical {} succeeded although it covers bad page {:?}", n, cur, bad_page)));
+                            }
+                            if buf[..] != log[cur..cur + *n] {
+                                return Some(("reader/read-content".into(), format!("read_exact({}) at logical {} returned other bytes than the logical stream", n, cur)));
+                            }
+                            if *n > PAYLOAD {
+                                cover.hit("read_exact:multi-page");
+                            }
+                            cur += *n;
+                            None
+                        }
+                        Err(e) => {
+                            if fits && !touches_bad {
+                                return Some(("reader/read-error".into(), format!("read_exact({}) at logical {} failed: {}", n, cur, e)));
+                            }
+                            // cursor after a failed read_exact is unspecified: re-seek to a known place
+                            cur = usize::MAX;
+                            None
+                        }
+                    }
+                }
+                ROp::Align => {
+                    let target = (cur + 3) / 4 * 4;
+                    match rd.align() {
+                        Ok(()) => {
+                            if target > total {
+                                return Some(("reader/align-past-end".into(), format!("align at {} accepted beyond end {}", cur, total)));
+                            }
+                            cur = target;
+                            None
+                        }
+                        Err(e) => {
+                            if target <= total {
+                                Some(("reader/align-error".into(), format!("align at logical {} failed: {}", cur, e)))
+                            } else {
+                                None
+                            }
+                        }
+                    }
+                }
+            }
+        });
+        match r {
+            Err(p) => return Some((format!("reader/panic/{}", crate::scene::panic_sig(&p)), format!("op {} {:?}: {}", i, op, p))),
+            Ok(Some(v)) => return Some((v.0, format!("read op {} of {:?}: {}", i, &ops[..=i], v.1))),
+            Ok(None) => {}
+        }
+        if cur == usize::MAX {
+            // need a seek to resynchronise
+            cur = 0;
+            if rd.seek_physical(0).is_err() {
+                return Some(("reader/seek-rejected".into(), "seek_physical(0) rejected".into()));
+            }
+        }
+    }
+    None
+}
+
+fn gen_read_ops(r: &mut Rng, img_len: usize, n: usize) -> Vec<ROp> {
+    let pages = (img_len / PAGE).max(1);
+    (0..n)
+        .map(|_| match r.usize(10) {
+            0 | 1 => {
+                let page = r.usize(pages);
+                let inpage = *r.pick(&[0usize, 1, 3, 4, 47, 48, 500, 1015, 1016, 1018, 1019]);
+                ROp::Seek((page * PAGE + inpage) as u64)
+            }
+            2 => ROp::Seek(img_len as u64 + r.below(3)),
+            3 | 4 | 5 => ROp::Read(*r.pick(&[0usize, 1, 4, 1019, 1020, 1021, 4096, 7, 100])),
+            6 | 7 => ROp::Exact(*r.pick(&[0usize, 1, 2, 4, 16, 32, 1019, 1020, 1021, 2041, 300])),
+            _ => ROp::Align,
+        })
+        .collect()
+}
+
+pub fn run(a: &Args, rep: &mut Reporter) {
+    let fc = FastCrc::new();
+    let depth = a.get_u64("depth", 4) as u32;
+    let asize = ALPHABET.len() as u64;
+    let exhaustive_total = asize.pow(depth);
+    let random_histories = a.get_u64("random", 20000);
+    // case space: [0, exhaustive_total) = all histories of exactly `depth` ops (shorter ones are prefixes);
+    // then `random_histories` random long histories with read-side sequences.
+    let total = exhaustive_total + random_histories;
+    let mut a2 = Args { workload: a.workload.clone(), seed: a.seed, shard: a.shard, shards: a.shards, cases: total.min(a.cases.max(1)), secs: a.secs, out: a.out.clone(), only: a.only, tier: a.tier.clone(), kv: a.kv.clone(), pos: a.pos.clone() };
+    if a.flag("all") {
+        a2.cases = total;
+    }
+    let (done, reason) = crate::run_cases(&a2, rep, |idx, cs, rep| {
+        let mut cover = std::mem::take(&mut rep.cover);
+        let mut r = Rng::new(cs);
+        let ops: Vec<Op> = if idx < exhaustive_total {
+            let mut v = Vec::new();
+            let mut x = idx;
+            for _ in 0..depth {
+                v.push(ALPHABET[(x % asize) as usize]);
+                x /= asize;
+            }
+            rep.stat("histories_exhaustive", 1);
+            v
+        } else {
+            rep.stat("histories_random", 1);
+            let n = 20 + r.usize(100);
+            let mut v = Vec::new();
+            for _ in 0..n {
+                if r.chance(1, 6) {
+                    // patch-back pattern of the real writers: remember, write, seek back, rewrite header, seek to end
+                    v.push(Op::P);
+                    v.push(Op::W(*r.pick(&[16usize, 32, 48])));
+                    v.push(Op::W(r.usize(3000)));
+                    v.push(Op::S(Pos::Earlier));
+                    v.push(Op::W(*r.pick(&[16usize, 32])));
+                    v.push(Op::S(Pos::End));
+                    v.push(Op::A);
+                } else if r.chance(1, 8) {
+                    v.push(Op::W(r.usize(2100)));
+                } else {
+                    v.push(*r.pick(ALPHABET));
+                }
+            }
+            v
+        };
+        let hr = run_history(&ops, &fc, &mut cover);
+        rep.stat("operations", hr.ops_run);
+        rep.stat("flush_points_checked", hr.flush_points);
+        if let Some((sig, detail)) = &hr.viol {
+            rep.violation("C11", sig, idx, detail);
+        }
+        if rep.samples < rep.max_samples && idx % 977 == 3 {
+            rep.sample(J::obj().set("case", J::i(idx as i128)).set("history", J::s(format!("{:?}", ops))));
+        }
+        // read side: on random cases (and a slice of the exhaustive ones) build an image from a model stream
+        if idx >= exhaustive_total || idx % 64 == 0 {
+            let pages = 1 + r.usize(4);
+            let log: Vec<u8> = (0..pages * PAYLOAD).map(|i| ((i * 7 + 3) % 251) as u8 | 1).collect();
+            let img = crate::crc::paged(&log, &fc);
+            let n = 5 + r.usize(30);
+            let rops = gen_read_ops(&mut r, img.len(), n);
+            rep.stat("read_sequences", 1);
+            rep.stat("read_operations", rops.len() as u64);
+            if let Some((sig, detail)) = run_reads(&img, &log, None, &rops, &mut cover) {
+                rep.violation("C11", &sig, idx, &detail);
+            }
+            // one damaged page (payload or checksum byte)
+            let bad = r.usize(pages);
+            let mut img2 = img.clone();
+            let off = bad * PAGE + r.usize(PAGE);
+            img2[off] ^= 1 << r.usize(8);
+            rep.stat("read_sequences_damaged", 1);
+            if let Some((sig, detail)) = run_reads(&img2, &log, Some(bad), &rops, &mut cover) {
+                rep.violation("C11", &format!("damaged/{}", sig), idx, &detail);
+            }
+        }
+        rep.cover = cover;
+    });
+    rep.stat("alphabet_size", 0);
+    rep.finish(done, reason);
 }
